@@ -47,8 +47,9 @@ def gen_cases(rng, tier):
     cases = []
     ndocs = 25 if tier == 'quick' else 2000
     per_doc = 6 if tier == 'quick' else 12
-    lay = docgen.Layout(mode='canonical')
     for d in range(ndocs):
+        # one element per line, everything on one line, random line breaks: what stands on the line of the unknown element must not matter
+        lay = docgen.Layout(mode=('canonical', 'oneline', 'random')[d % 3])
         seed = rng.randrange(1 << 30)
         opts = docgen.GenOptions(version=rng.choice(docs.VERSIONS), max_depth=5, max_repeat=2, p_optional=0.4)
         node = docgen.gen_tree(sp, random.Random(seed), opts)
